@@ -72,6 +72,17 @@ def cases(tier, seed, prop):
         ab = gens.rand_abbr(rnd, [rnd.randint(1, 8)], 3)
         if rnd.random() < (.5 if prop == 'C07' else .1): ab = gens.mutate(rnd, ab, gens.ABBR_ALPHA)
         out.append({'s': ab, 'c': CFGS[rnd.randrange(len(CFGS))] if rnd.random() < .4 else rand_cfg(rnd), 'g': 'abbr'})
+    if prop == 'C07':
+        # half-typed input: every prefix of valid abbreviations (open attribute sets, expressions, quotes, text, groups …)
+        seen = set()
+        for _ in range(n // 20):
+            ab = gens.rand_abbr(rnd, [rnd.randint(1, 5)], 2)
+            if rnd.random() < .3: ab += rnd.choice(['[b={c}]', '[b={c} d="e f"]', "[a='b']{t}", '{a {b} c}', '[x=y z.]*2', '[b={}]', '{${1:x}}', '[!k={v}]'])
+            if len(ab) > 60: continue
+            c = CFGS[rnd.randrange(len(CFGS))] if rnd.random() < .5 else rand_cfg(rnd)
+            for i in range(1, len(ab)):
+                if ab[:i] not in seen:
+                    seen.add(ab[:i]); out.append({'s': ab[:i], 'c': c, 'g': 'prefix'})
     return out
 
 
